@@ -8,6 +8,9 @@ CONSTANTS NP = 3
   Skip <- MCNoSkip
   ResOut = 65534
   ResOther = 65529
+  Pipe = "any"
+  MaxBurst = 3
+  LenSet = "all"
   Thin = FALSE
 INIT Init
 NEXT Next
